@@ -564,11 +564,11 @@ class Raises:
         op = PartialOp('call', node, exc, fi, '%s %s' % (what,
                                                          unparse(node)[:60]))
         self.partial_ops.append(op)
-        if id(node) in self.discharged:
+        if (id(node), exc) in self.discharged:
             return
         res = self._raise(exc, self._w(fi, node, op.desc), frames, out, fi)
         if res[0] == 'handler':
-            self.handled_ops[id(node)] = res[1]
+            self.handled_ops[(id(node), exc)] = res[1]
 
     def _ext(self, fi, call, name, frames, out):
         self.ext_calls.append((fi, call, name))
